@@ -1,1 +1,77 @@
+(* C17/Proofs.v — the lemmas behind the property theorems, at the real limit
+   (bufio.MaxScanTokenSize).  The development is split over
+     ProofsScan.v      UTF-8 helpers, span loop, extension stability of scan, well-formed chains
+     ProofsRun.v       bufio.Scanner driver and Decoder.Next against the chunk-free reading
+     ProofsBits.v      single-bit reasoning on Style masks, table lemmas
+     ProofsSpan.v      what one scanSpan call does to the span stack ([closes])
+     ProofsLevel.v     per-level consistency of mask / clearMask / spanStack; the checker step
+     ProofsBrackets.v  the chain invariant and the bracket discipline of every run *)
+From Coq Require Import ZifyBool ZifyNat ZifyN.
 From XV Require Import lib.Bytes gen.Styling C17.Model.
+From XV Require Export C17.ProofsScan C17.ProofsRun C17.ProofsBits C17.ProofsSpan C17.ProofsLevel C17.ProofsBrackets.
+
+(* ---- termination, no panic ---- *)
+Lemma decode_ends input reads deof :
+  snd (decode input reads deof) = EEOF \/ snd (decode input reads deof) = ETooLong.
+Proof.
+  destruct (decode input reads deof) as [os e] eqn:D. cbn [snd].
+  apply decode_trace in D; [|apply limit_pos]. eapply trace_end; eauto.
+Qed.
+
+(* ---- losslessness ---- *)
+Lemma decode_lossless input reads deof os e : decode input reads deof = (os, e) ->
+  exists tail, input = flat_map o_data os ++ tail /\ (e = EEOF -> tail = []).
+Proof.
+  intros D. apply decode_trace in D; [|apply limit_pos].
+  destruct (trace_lossless _ _ _ _ _ _ D) as [tail [E1 E2]]. exists tail. auto.
+Qed.
+
+Fixpoint dbl (n : nat) (l : bytes) : bytes :=
+  match n with O => l | S n' => dbl n' (l ++ l) end.
+
+(* 65536 times the letter a, one line without an end *)
+Definition long_line : bytes := dbl 16 ["a"%byte].
+
+Lemma long_line_too_long : decode long_line [] false = ([], ETooLong).
+Proof. vm_compute. reflexivity. Qed.
+
+Lemma long_line_at_eof : snd (decode long_line [] true) = EEOF.
+Proof. vm_compute. reflexivity. Qed.
+
+Lemma lossless_refuted : exists input reads deof,
+  flat_map o_data (fst (decode input reads deof)) <> input.
+Proof.
+  exists long_line, [], false. rewrite long_line_too_long. cbn [fst flat_map].
+  intros H. apply (f_equal (@is_nil byte)) in H. vm_compute in H. discriminate.
+Qed.
+
+(* ---- chunk independence ---- *)
+Lemma decode_chunk_free input : snd (ref_decode input) <> ETooLong ->
+  forall reads deof, decode input reads deof = ref_decode input.
+Proof. intros H reads deof. apply decode_ref; [apply limit_pos|exact H]. Qed.
+
+Lemma chunk_independence_refuted : exists input r1 e1 r2 e2,
+  decode input r1 e1 <> decode input r2 e2.
+Proof.
+  exists long_line, [], false, [], true. intros H. apply (f_equal snd) in H.
+  rewrite long_line_too_long, long_line_at_eof in H. discriminate.
+Qed.
+
+(* ---- brackets ---- *)
+Lemma decode_brackets_ok input reads deof :
+  brackets_ok (fst (decode input reads deof)) (snd (decode input reads deof)) = true.
+Proof.
+  destruct (decode input reads deof) as [os e] eqn:D. cbn [fst snd].
+  eapply decode_brackets; [apply limit_pos|exact D].
+Qed.
+
+(* ---- tables ---- *)
+Lemma tables_ok :
+  fence = [c_tick; c_tick; c_tick] /\ is_space rune_error = false /\
+  Forall single all_bits /\ span_bit_classes_disjoint = true /\
+  NoDup all_bits.
+Proof.
+  split; [apply fence_is|]. split; [apply is_space_rune_error|].
+  split; [apply all_bits_single|]. split; [apply disjoint_tbl|].
+  unfold all_bits. repeat constructor; cbn; intuition discriminate.
+Qed.
